@@ -6,6 +6,16 @@ import z3
 
 from sx import core as S, env as E, pl, plh, cfg, families as F
 
+
+def _clear_caches(ns_):
+    """empty the configurator-level caches if the current tree has any (lru_cache on the class, pinned tree); a no-op for per-instance caches"""
+    for name in ("ge_polyhedron", "leafs"):
+        f = ns_.cc.StingyConfigurator.__dict__.get(name)
+        f = getattr(f, "fget", f)
+        cc_ = getattr(f, "cache_clear", None)
+        if cc_ is not None:
+            cc_()
+
 PROPERTY = "C18"
 REGIONS = ["one-addition", "two-additions", "three-additions", "added-defaulted-rule", "added-imply-rule", "clash-with-rule-id", "clash-with-item-id",
            "symbolic-threshold", "original-unchanged-checked"]
@@ -107,7 +117,7 @@ def run_inst(spec, run):
 
     def fn(ctx):
         env = plh.sym_env(ctx, allspec)
-        ns.cc.StingyConfigurator.ge_polyhedron.fget.cache_clear()
+        _clear_caches(ns)
         c0 = pl.build(ns, base, env)
         s_before = snap(ns, c0)
         cur = c0
@@ -154,7 +164,7 @@ def run_inst(spec, run):
         ctx._ensure_model()
         cenv = plh.conc_env(ctx.model, env)
         try:
-            ns.cc.StingyConfigurator.ge_polyhedron.fget.cache_clear()
+            _clear_caches(ns)
             a = pl.build(ns, base, cenv)
             for r in added:
                 a = a.add(pl.build(ns, r, cenv))
@@ -162,9 +172,9 @@ def run_inst(spec, run):
             bad = []
             if a.default_prios != b.default_prios:
                 bad.append("default_prios differ")
-            ns.cc.StingyConfigurator.ge_polyhedron.fget.cache_clear()
+            _clear_caches(ns)
             Pa = a.ge_polyhedron
-            ns.cc.StingyConfigurator.ge_polyhedron.fget.cache_clear()
+            _clear_caches(ns)
             Pb = b.ge_polyhedron
             if np.asarray(Pa).tolist() != np.asarray(Pb).tolist() or [v.id for v in Pa.variables] != [v.id for v in Pb.variables] \
                     or list(Pa.default_prio_vector) != list(Pb.default_prio_vector):
